@@ -74,7 +74,10 @@ def check_fwd(project: Project, rep):
                     f"(should be self.{k})")
             if bound.get("dgms") is not X:
                 bad.append("dgms is not the data passed to transform")
-            if bad:
+            if bad and not I.clean_before(cons[0]):
+                rep.unmodelled("GL-FWD", tr, cons[0]["node"], "the constructor's arguments could not be followed (a step before the "
+                                                              "call was not modelled): " + "; ".join(bad)[:160])
+            elif bad:
                 rep.refuted("GL-FWD", tr, cons[0]["node"], "the transformer does not forward its own parameters: " + "; ".join(bad))
             elif unk:
                 rep.unmodelled("GL-FWD", tr, cons[0]["node"], "constructor arguments not modelled: " + "; ".join(unk))
